@@ -131,7 +131,10 @@ func (v *version) Clone() *version {
 	clone.nonce = make([]byte, len(v.nonce))
 	copy(clone.nonce, v.nonce)
 
-	// not copying metadata
+	// not copying metadata: a version only holds the metadata it sets. The map of the
+	// original must not be shared either, or setting a metadata on the clone also changes
+	// the (possibly already stored) version it was cloned from.
+	clone.metadata = nil
 
 	return &clone
 }
